@@ -84,6 +84,7 @@ type fgen struct {
 	n    int
 	// cfgQueue holds update strings the next config-update proposals use first (directed scenarios)
 	cfgQueue []string
+	priority []string // ids of the proposals created from cfgQueue: pushed towards a passing vote
 }
 
 func (f *fgen) next() int64 { return f.w.C.Height + 1 }
@@ -144,10 +145,14 @@ func (f *fgen) create() txgen.Tx {
 	typ := []governance.ProposalType{governance.ProposalTypeGeneral, governance.ProposalTypeGeneral, governance.ProposalTypeConfigUpdate, governance.ProposalTypeConfigUpdate,
 		governance.ProposalTypeConfigUpdate, governance.ProposalTypeCodeChange}[f.u.N(6, "cr-type")]
 	cfg := ""
+	if len(f.cfgQueue) > 0 {
+		typ = governance.ProposalTypeConfigUpdate
+	}
 	if typ == governance.ProposalTypeConfigUpdate {
 		cfg = f.pool[f.u.N(len(f.pool), "cr-cfg")]
 		if len(f.cfgQueue) > 0 {
 			cfg, f.cfgQueue = f.cfgQueue[0], f.cfgQueue[1:]
+			f.priority = append(f.priority, string(txgen.ProposalID(fmt.Sprintf("c14-%d-%s", f.n+1, w.P.Seed))))
 		} else if f.u.N(3, "cr-valid") != 0 {
 			cfg = f.pool[f.u.N(6, "cr-cfgv")] // the first six are valid in every flavour
 		}
@@ -160,6 +165,9 @@ func (f *fgen) create() txgen.Tx {
 	fundDL := h + 1 + int64(f.u.N(int(w.P.PropFundingDL), "cr-fdl"))
 	if f.u.N(3, "cr-short") == 0 {
 		fundDL = h + 1
+	}
+	if len(f.priority) > 0 && f.priority[len(f.priority)-1] == string(id) {
+		fundDL = h + w.P.PropFundingDL // a scenario proposal gets the longest funding period
 	}
 	voteDL := fundDL + w.P.PropVotingDL
 	initial := bigS(w.P.PropInitialFunding)
@@ -196,14 +204,14 @@ func (f *fgen) fund(late bool) (txgen.Tx, bool) {
 	goal := p.Rec.FundingGoal.BigInt()
 	rest := new(big.Int).Sub(goal, p.total())
 	var amt *big.Int
-	switch f.u.N(7, "fu-shape") {
-	case 0, 1, 2:
+	switch f.u.N(10, "fu-shape") {
+	case 0, 1, 2, 3, 4:
 		amt = rest
-	case 3:
-		amt = new(big.Int).Sub(rest, big.NewInt(1))
-	case 4:
-		amt = new(big.Int).Div(goal, big.NewInt(3))
 	case 5:
+		amt = new(big.Int).Sub(rest, big.NewInt(1))
+	case 6, 7:
+		amt = new(big.Int).Div(goal, big.NewInt(3))
+	case 8:
 		amt = new(big.Int).Add(rest, big.NewInt(int64(f.u.N(1000, "fu-over"))))
 	default:
 		amt = big.NewInt(1)
@@ -447,6 +455,39 @@ func (f *fgen) stranger() (txgen.Tx, bool) {
 	return tx, true
 }
 
+// push moves a priority proposal one step towards a passing vote: the rest of its goal, then a yes from every snapshot validator.
+func (f *fgen) push() ([]txgen.Tx, bool) {
+	for _, id := range f.priority {
+		p := f.m.Props[id]
+		if p == nil {
+			continue
+		}
+		switch p.Stage {
+		case SF:
+			if f.next() > p.Rec.FundingDeadline {
+				continue
+			}
+			_, usr := f.user("pu-user")
+			rest := new(big.Int).Sub(p.Rec.FundingGoal.BigInt(), p.total())
+			tx := txgen.ProposalFund(usr, governance.ProposalID(p.ID), usr.Addr, txgen.Amt("OLT", rest), f.w.Fee, f.w.Memo())
+			tx.Tags = []string{"focused", "push"}
+			return []txgen.Tx{tx}, true
+		case SV:
+			if f.next() > p.Rec.VotingDeadline {
+				continue
+			}
+			var out []txgen.Tx
+			for _, v := range f.snapshotVals(p) {
+				out = append(out, f.voteTx(p, v, governance.OPIN_POSITIVE, "push"))
+			}
+			if len(out) > 0 {
+				return out, true
+			}
+		}
+	}
+	return nil, false
+}
+
 // drawBlock draws the transactions of the next block.
 func (f *fgen) drawBlock() ([]txgen.Tx, string) {
 	// deep-state drivers first: they apply only in particular model states
@@ -454,26 +495,31 @@ func (f *fgen) drawBlock() ([]txgen.Tx, string) {
 	if f.next() <= 2 && f.u.N(5, "warmup") != 0 {
 		return nil, "idle" // validators are marked active at the end of block 2: earlier snapshots are empty
 	}
+	if len(f.priority) > 0 && f.u.N(100, "push") < 60 {
+		if txs, ok := f.push(); ok {
+			return txs, "push"
+		}
+	}
 	switch {
-	case r < 14:
+	case r < 12:
 		if txs, ok := f.refundBlock(); ok {
 			return txs, "refund"
 		}
-	case r < 26:
+	case r < 34:
 		if txs, ok := f.voteBurst(false); ok {
 			return txs, "vote-burst"
 		}
-	case r < 32:
+	case r < 38:
 		if txs, ok := f.voteBurst(true); ok {
 			return txs, "vote-late"
 		}
-	case r < 38:
+	case r < 42:
 		if tx, ok := f.fund(true); ok {
 			return []txgen.Tx{tx}, "fund-late"
 		}
 	case r < 50:
 		return nil, "idle"
-	case r < 58:
+	case r < 56:
 		return f.g.DrawTxs(4), "shared"
 	}
 	n := 1 + f.u.N(4, "ntx")
@@ -482,8 +528,12 @@ func (f *fgen) drawBlock() ([]txgen.Tx, string) {
 		var tx txgen.Tx
 		ok := false
 		a := f.u.N(100, "act")
-		if len(f.byStage(SF, SV)) == 0 && a < 67 {
+		open := len(f.byStage(SF, SV))
+		if open == 0 && a < 67 {
 			a = 0
+		}
+		if open >= 4 && a < 10 {
+			a = 10 + f.u.N(57, "act-full")
 		}
 		switch {
 		case a < 10:
